@@ -27,6 +27,8 @@ def test_stmt(t: T.Dict[str, T.Any]) -> str:
         kw.append(f"timeout: {t['timeout']}")
     if t.get('should_fail'):
         kw.append('should_fail: true')
+    if t.get('expected_exitcode'):
+        kw.append(f"expected_exitcode: {t['expected_exitcode']}")
     if t.get('suites'):
         kw.append('suite: [' + ', '.join(q(s) for s in t['suites']) + ']')
     if t.get('protocol', 'exitcode') != 'exitcode':
